@@ -174,7 +174,7 @@ class SolverRun:
         self.other = None
         self._other_left = 4
         if other and other[1] == "before":
-            self.other = self._make_other(other[0])
+            self.other = self._make_other(other[0], iterate=True)
         with quiet() as buf:
             self.solver = Solver(self.problem, parameters=self.params)
             self.solver.AddListener(_XLog(self.xlog))
@@ -183,14 +183,16 @@ class SolverRun:
         self.out += buf.getvalue()
 
         if other and other[1] == "after":
-            self.other = self._make_other(other[0])
+            # constructed after this solver; its first iteration comes after this solver's first call
+            self.other = self._make_other(other[0], iterate=False)
 
     @staticmethod
-    def _make_other(N2):
+    def _make_other(N2, iterate):
         p2 = EnvProblem(N2, [-1.0] * N2, [2.0] * N2, lambda k, y: 3.0 + float(np.sum(np.abs(y - 0.3))))
         with quiet():
             s2 = Solver(p2, parameters=SolverParameters(eps=0.05, r=3.0, itersLimit=50))
-            s2.DoGlobalIteration(1)
+            if iterate:
+                s2.DoGlobalIteration(1)
         return s2
 
     def _poke_other(self):
